@@ -288,6 +288,7 @@ fn tracker_violation(rep: &tracker::RunReport, when: &str) -> Option<Violation> 
 }
 
 fn exec_sim<T: Target>(p: &Prepared<T>, api: Api, sink: Sink, script: &Script, ctx_counts: &mut Vec<String>) -> Result<Info, Violation> {
+    crate::ctx::scrub_stack();
     let len = p.b.len();
     let budget = 2 * (p.calls + script.steps.len() + script.flush_fail.len()) + 4 * len + 64;
     let w = SimWriter::new(script.clone(), len, budget);
